@@ -43,12 +43,20 @@ type FlushObs struct {
 	Mem     Final  `json:"memory"`     // State.aggregation after the flush
 	Disk    Final  `json:"state_file"` // the file after the flush (fault undone), own parser
 	DiskErr string `json:"state_file_problem,omitempty"`
+	// the engine's admin port during this flush (engine.go, notify.go)
+	Engine       int       `json:"engine_admin_port"`          // behaviour: engUp ... engReset
+	ReportDue    bool      `json:"report_due"`                 // the batch holds a non-internal record with an HAProxy-internal status
+	Contacted    int       `json:"engine_contacted"`           // 0 no, 1 yes, 2 not observable (nothing was listening)
+	Contacts     []contact `json:"engine_received,omitempty"`  // what arrived
+	ContactLate  bool      `json:"engine_contacted_late,omitempty"`
+	ContactNotes string    `json:"engine_contact_notes,omitempty"`
 }
 
 type FaultRun struct {
 	Cuts    []int      `json:"cuts"`
 	Restart []bool     `json:"restart"` // Restart[i]: restart before flush i+1
 	Fail    []int      `json:"fail"`    // Fail[i]: fault kind injected during flush i (len = len(Cuts)+1)
+	Engine  []int      `json:"engine_admin_port,omitempty"` // Engine[i]: behaviour of the engine's admin port during flush i (absent: up)
 	Flushes []FlushObs `json:"flushes,omitempty"`
 	Crash   string     `json:"crash,omitempty"`
 }
@@ -61,6 +69,13 @@ type FaultCase struct {
 }
 
 func (r *FaultRun) describe() string {
+	if r.Engine != nil {
+		names := make([]string, len(r.Engine))
+		for i, m := range r.Engine {
+			names[i] = engineModeNames[m]
+		}
+		return fmt.Sprintf("cuts=%v restart=%v failing-writes=%v engine-admin-port=%v", r.Cuts, r.Restart, r.Fail, names)
+	}
 	return fmt.Sprintf("cuts=%v restart=%v failing-writes=%v", r.Cuts, r.Restart, r.Fail)
 }
 
@@ -197,6 +212,7 @@ func executeFaults(k *FaultCase, r *FaultRun) (obs []FlushObs, crash string) {
 	os.RemoveAll(dir + ".parked")
 	must(os.Mkdir(dir, 0o755))
 	defer os.RemoveAll(dir)
+	defer eng.set(engUp)
 	path := filepath.Join(dir, "discovery.json")
 	p := &Plan{Threshold: k.Threshold, Declared: k.Declared, Records: k.Records, Cuts: r.Cuts, Restart: r.Restart}
 	rt := &recTree{inner: buildTree(p)}
@@ -218,6 +234,7 @@ func executeFaults(k *FaultCase, r *FaultRun) (obs []FlushObs, crash string) {
 		}
 		logs := make([]common.AccessLog, len(batch))
 		n := 0
+		var due []string
 		for j, rec := range batch {
 			logs[j] = common.AccessLog{
 				Timestamp: rec.TS, Duration: rec.Dur, TotalDuration: rec.TDur, StatusCode: rec.Status,
@@ -227,17 +244,26 @@ func executeFaults(k *FaultCase, r *FaultRun) (obs []FlushObs, crash string) {
 			if !rec.Internal {
 				n++
 			}
+			if reportable(rec) {
+				due = append(due, logs[j].RequestID)
+			}
 		}
 		if i < len(r.Fail) {
 			fo.Fault = r.Fail[i]
 		}
+		if i < len(r.Engine) {
+			fo.Engine = r.Engine[i]
+		}
+		fo.ReportDue = len(due) > 0
 		rt.events = rt.events[:0]
+		eng.begin(fo.Engine)
 		undo := inject(fo.Fault, dir, path)
 		var err error
 		func() {
 			defer undo()
 			err = discovery.Run(st, logs, rt)
 		}()
+		observeEngine(&fo, due)
 		fo.Err = errClass(err)
 		if err != nil {
 			fo.ErrText = err.Error()
@@ -301,7 +327,7 @@ func slimFaults(k *FaultCase) FaultCase {
 	out := *k
 	out.Runs = make([]FaultRun, len(k.Runs))
 	for i, r := range k.Runs {
-		out.Runs[i] = FaultRun{Cuts: r.Cuts, Restart: r.Restart, Fail: r.Fail}
+		out.Runs[i] = FaultRun{Cuts: r.Cuts, Restart: r.Restart, Fail: r.Fail, Engine: r.Engine}
 	}
 	return out
 }
@@ -327,8 +353,10 @@ func slimFaults(k *FaultCase) FaultCase {
 
 type tracked struct {
 	Rec
-	floored    bool // came back through the file: stamps have whole-second resolution
-	failedDump bool // the write of its flush was made to fail
+	floored      bool // came back through the file: stamps have whole-second resolution
+	failedDump   bool // the write of its flush was made to fail
+	failedNotify bool // the report its flush had to make to the engine met a transport failure
+	runErr       int  // error class Run returned for its flush (only used to name a loss both faults would explain)
 }
 
 func plainStream(k *FaultCase) bool {
@@ -358,23 +386,49 @@ func recsOf(ts []tracked, keep func(tracked) bool) []Rec {
 func accounts(k *FaultCase, f Final, want []tracked, where, ctx string, disk bool, add func(sig, dem, obs string)) {
 	all := recsOf(want, func(tracked) bool { return true })
 	lax := disk
-	anyFailed := false
+	anyFailed, anyUnnotified := false, false
 	for _, t := range want {
 		lax = lax || t.floored
 		anyFailed = anyFailed || t.failedDump
+		anyUnnotified = anyUnnotified || t.failedNotify
 	}
 	truth := totalsOfRecords(all)
 	sig := func(obs totals, tags bool) string {
+		fitsN, fitsD := false, false
+		if anyUnnotified {
+			// exactly the flushes whose report to the engine failed are missing (whatever their writes did)
+			without := totalsOfRecords(recsOf(want, func(t tracked) bool { return !t.failedNotify }))
+			fitsN, _ = sameTotals(obs, without, true, tags)
+		}
 		if anyFailed {
 			without := totalsOfRecords(recsOf(want, func(t tracked) bool { return !t.failedDump }))
+			fitsD, _ = sameTotals(obs, without, true, tags)
+		}
+		if fitsN && fitsD {
+			// the same flushes had both faults: a dump error says Run got as far as the write
+			for _, t := range want {
+				if t.failedNotify && t.failedDump && t.runErr != 1 {
+					fitsD = false
+				}
+			}
+			fitsN = !fitsD
+		}
+		if fitsN {
+			return sigNotifyDrop
+		}
+		if fitsD {
+			return "lost-traffic:failed-write-drops-batch"
+		}
+		if anyFailed && anyUnnotified {
+			without := totalsOfRecords(recsOf(want, func(t tracked) bool { return !t.failedDump && !t.failedNotify }))
 			if ok, _ := sameTotals(obs, without, true, tags); ok {
-				return "lost-traffic:failed-write-drops-batch"
+				return sigNotifyDrop
 			}
 		}
 		return "lost-traffic:faults:" + where
 	}
 	dem := "the " + where + " accounts for every record processed since the last restart and for what that restart read back, " +
-		"whether or not the write of a flush failed"
+		"whether or not the write of a flush failed and whatever became of the report to the engine's admin port"
 	tE := totalsOfAggs(f.Endpoints)
 	if ok, why := sameTotals(tE, truth, lax, false); !ok {
 		add(sig(tE, false), dem, fmt.Sprintf("endpoints: %s (observed vs records; %s)", why, ctx))
@@ -427,6 +481,9 @@ func accounts(k *FaultCase, f Final, want []tracked, where, ctx string, disk boo
 				if e.Count < n && anyFailed {
 					s = "lost-traffic:failed-write-drops-batch"
 				}
+				if e.Count < n && anyUnnotified && !anyFailed {
+					s = sigNotifyDrop
+				}
 				add(s, "for every endpoint the request count equals the number of records attributed to it",
 					fmt.Sprintf("%s: %s %s counts %d, covers %d (%s)", where, e.Method, e.URL, e.Count, n, ctx))
 				return
@@ -477,10 +534,14 @@ func faultMonitor(k *FaultCase, r *FaultRun, add func(sig, dem, obs string)) {
 			add("state-file:unreadable", "the state file holds the discovery statistics", fo.DiskErr+" ("+ctx+")")
 			return
 		}
-		if fo.Err == 2 || (fo.Err != 0 && fo.Fault == 0) {
+		// the report this flush owed the engine could not be delivered (connection refused / lost)
+		unnotified := fo.ReportDue && engineTransportFailure(fo.Engine)
+		if (fo.Err == 2 && !unnotified) || (fo.Err != 0 && fo.Err != 2 && fo.Fault == 0) {
 			add("lost-traffic:batch-rejected", "every flush is processed", "Run returned: "+fo.ErrText+" ("+ctx+")")
 			return
 		}
+		// (an error returned next to a failed report is judged by what became of the
+		// records: the ledgers below do not depend on the outcome of the report)
 		if fo.Restarted && fo.PostRestart != nil {
 			// reading back: what the file held is in memory, key by key (collisions.go)
 			restartConservation(lastDisk, *fo.PostRestart, "state file vs the memory read back from it", ctx, add)
@@ -494,7 +555,7 @@ func faultMonitor(k *FaultCase, r *FaultRun, add func(sig, dem, obs string)) {
 		}
 		for _, rec := range batch {
 			if !rec.Internal {
-				live = append(live, tracked{Rec: rec, failedDump: fo.Fault != 0})
+				live = append(live, tracked{Rec: rec, failedDump: fo.Fault != 0, failedNotify: unnotified, runErr: fo.Err})
 			}
 		}
 		if len(batch) > 0 && fo.Fault == 0 {
